@@ -834,6 +834,10 @@ class Ref:
                     b.gen = None
         for f, tr, _ in S.ltl:
             if not tr:
+                if self.bugs.get("rvltl"):
+                    # (attribution runs only: a monitor that was never updated still holds
+                    # its initial verdict "true", so the implementation accepts)
+                    continue
                 # scenario started and stopped without ever being stepped: the trace of
                 # its requirement is empty, finite-trace semantics says nothing
                 raise Unsupported("temporal requirement with empty trace")
